@@ -75,13 +75,20 @@ def _lens_cases(ctx, nl, rays_per):
     cases = []
     hist = {'lenses': 0, 'apertures': 0, 'coatings': 0, 'absorbing': 0, 'mirrors': 0, 'errors': {}}
     for li in range(nl):
-        spec = lensgen.gen_spec(rng, allow=['plane', 'standard', 'conic', 'even_asphere'])
+        spec = lensgen.gen_spec(rng, allow=['plane', 'standard', 'conic', 'even_asphere'], mirrors=(True if li % 4 == 1 else None))
         for s in spec['surfaces']:
+            if s.get('material') == 'mirror' and rng.random() < 0.7:
+                # coated mirrors, incl. a reflectance of exactly 0 or 1 with any transmittance
+                s['coating'] = [rng.choice([0.0, 1.0, rng.uniform(0.0, 1.0)]), rng.choice([0.0, 0.0, 1.0, rng.uniform(0.0, 1.0)])]
+                hist['coated_mirrors'] = hist.get('coated_mirrors', 0) + 1
+                continue
             if rng.random() < 0.35:
                 rmax = spec['aperture'][1] * rng.uniform(0.25, 0.9) if spec['aperture'][0] == 'EPD' else rng.uniform(1, 5)
                 s['aperture'] = [rmax, rng.choice([0.0, rmax * rng.uniform(0.1, 0.4)])]
             if rng.random() < 0.3:
-                s['coating'] = [rng.uniform(0.3, 1.0), rng.uniform(0.0, 1.0)]
+                # boundary values too: T or R exactly 0 / 1 (a reflectance of exactly 0 on a mirror removes everything)
+                s['coating'] = [rng.choice([0.0, 1.0, rng.uniform(0.3, 1.0), rng.uniform(0.3, 1.0)]),
+                                rng.choice([0.0, 0.0, 1.0, rng.uniform(0.0, 1.0), rng.uniform(0.0, 1.0)])]
             if isinstance(s['material'], list) and s['material'][0] == 'ideal' and rng.random() < 0.5:
                 s['material'][2] = rng.uniform(0, 5e-6)
         if li % 3 == 2:
@@ -100,6 +107,14 @@ def _lens_cases(ctx, nl, rays_per):
             continue
         wv = spec['wavelengths'][0][0]
         surfs = lensgen.model_surfaces(o, wv)
+        # aperture radii and coating factors are taken from the PRESCRIPTION (what was asked for), not read back
+        # from the objects the library built from it
+        for ms, ss in zip(surfs, spec['surfaces']):
+            if ss.get('coating'):
+                ms['coat'] = (float(ss['coating'][0]), float(ss['coating'][1]))
+                hist['coating_boundary'] = hist.get('coating_boundary', 0) + int(ss['coating'][0] in (0.0, 1.0) or ss['coating'][1] in (0.0, 1.0))
+            if ss.get('aperture'):
+                ms['aper'] = (float(ss['aperture'][0]), float(ss['aperture'][1]))
         hist['lenses'] += 1
         hist['apertures'] += sum(1 for s in surfs if s['aper'])
         hist['coatings'] += sum(1 for s in surfs if s['coat'])
